@@ -269,6 +269,7 @@ def verify_function(ex, key, timeout_ms=10000, extra_pre=()):
         pre_conds = []
         from contracts import common as _cm
         unfold = set(getattr(spec, "unfold", ()))
+        _cm.HIDE = set(getattr(spec, "hide", ()))
         _cm.UNFOLD = unfold
         for c in spec.pre:
             cond = c.fn(a)
@@ -362,6 +363,7 @@ def verify_function(ex, key, timeout_ms=10000, extra_pre=()):
         try:
             from contracts import common as _cm2
             _cm2.UNFOLD = set()
+            _cm2.HIDE = set()
         except Exception:  # noqa
             pass
     rep.secs = time.time() - t0
